@@ -120,6 +120,24 @@ Qed.
 Lemma tp_rgood_ve_num x M s : tp_rgood x M s -> tp_ve_num s <= M.
 Proof. intros [_ (ve & Hve & HM & _)]. unfold tp_ve_num. rewrite Hve. exact HM. Qed.
 
+(* a round that only merges (second form): every step is an AddSegment / RemoveSegment ending at or before valid_end *)
+Lemma tp_merge_clip_rgood x M fx o inc : forall s, tp_rgood x M s -> tp_rgood x M (tp_merge_clip fx o inc s).
+Proof.
+  unfold tp_merge_clip. induction o as [|sg r IH]; intros s H; [exact H|]. cbn [fold_left]. apply IH.
+  destruct (tp_ve_num s <=? fst sg); [exact H|].
+  assert (tp_ve_num s <= M) as HM by (apply (tp_rgood_ve_num x M s H)).
+  assert ((if tp_ve_num s <? snd sg then tp_ve_num s else snd sg) <= M) as He by (destruct (tp_ve_num s <? snd sg) eqn:C; lia).
+  destruct inc; [apply tp_add_rgood|apply tp_remove_rgood]; assumption.
+Qed.
+
+Lemma tp_merge_only_rgood x M fx prefer incs excs s : tp_rgood x M s -> tp_rgood x M (tp_merge_only fx prefer incs excs s).
+Proof.
+  assert (forall os inc s0, tp_rgood x M s0 -> tp_rgood x M (tp_merge_clip_all fx os inc s0)) as Hall.
+  { unfold tp_merge_clip_all. induction os as [|o r IH]; intros inc s0 H; [exact H|]. cbn [fold_left]. apply IH.
+    apply tp_merge_clip_rgood. exact H. }
+  intros H. unfold tp_merge_only. apply Hall, Hall. exact H.
+Qed.
+
 Lemma tp_rgood_beyond x M s t : tp_rgood x M s -> tp_ve_num s <= t -> tp_inside_segs (tp_segs s) t = false.
 Proof.
   intros [_ (ve & Hve & _ & Hs)] Ht. unfold tp_ve_num in Ht. rewrite Hve in Ht.
@@ -190,6 +208,7 @@ Variable ownP : Z -> bool.
 Variable upd : Z -> Z -> list tp_seg.
 Variable hz : Z -> Z.
 Variable prefer : bool.
+Variable ma : bool.
 (* the update function never reports an instant the period's own definition does not contain ... *)
 Hypothesis Usound : forall b e t, tp_inside_segs (upd b e) t = true -> ownP t = true.
 (* ... answers completely from the region's begin up to hz e >= e, and no segment it returns ends later *)
@@ -297,7 +316,7 @@ Qed.
 
 Lemma tp_roll_inv_step n0 prev acc r :
   tp_roll_inv n0 prev acc -> tp_round_ok hz r -> tp_round_mono prev r ->
-  tp_roll_inv n0 r (tp_roll_step upd prefer acc r).
+  tp_roll_inv n0 r (tp_roll_step ma upd prefer acc r).
 Proof.
   intros (Hg & Hsp & Hmono) Hok [Hnow Hm]. destruct acc as [s rl]. cbn [fst snd] in *.
   unfold tp_roll_inv, tp_roll_step. cbn [fst snd].
@@ -315,13 +334,33 @@ Proof.
   unfold tp_roll_round. fold p. fold s1.
   unfold tp_roll_effective.
   destruct (tp_rr_now r + 86400 <? tp_ve_num s) eqn:Heff; cbn [negb].
-  - (* early return: only the purge *)
-    assert (tp_update_region true upd prefer (tp_rr_incs r) (tp_rr_excs r) (tp_ve_num s1) (tp_rr_now r + 86400) false s1 = s1) as ->.
-    { apply tp_update_region_noop. lia. }
-    split; [exact Hg1|]. split.
-    + intros t Ht. rewrite Hpurge by lia. apply Hsp. lia.
-    + intros t Ht. destruct (Hmono t ltac:(lia)) as [H1 H2]. destruct (Hm t ltac:(lia)) as [H3 H4]. split; auto.
-  - set (e := tp_rr_now r + 86400) in *.
+  - (* no stretch of the period's own: only the purge (first form) / the purge and a merge below valid_end (second form) *)
+    unfold tp_update_region_ma.
+    assert ((negb false && (tp_rr_now r + 86400 <? tp_ve_num s1)) = true) as -> by (cbn; lia).
+    destruct ma; cbn [orb].
+    + destruct Hg1 as [Hvb1 (v & Hv & HvM & Hsegs)].
+      assert (tp_ve_num s1 = v) as Hv1 by (unfold tp_ve_num; rewrite Hv; reflexivity).
+      destruct (tp_merge_only_spec prefer (tp_rr_incs r) (tp_rr_excs r) s1 v Hv) as [Hv' Hs'].
+      set (s2 := tp_merge_only true prefer (tp_rr_incs r) (tp_rr_excs r) s1) in *.
+      assert (tp_ve_num s2 = v) as Hv2 by (unfold tp_ve_num; rewrite Hv'; reflexivity).
+      split; [|split].
+      * rewrite Hv2. rewrite <- Hv1. apply tp_merge_only_rgood. split; [exact Hvb1|]. exists v. rewrite Hv1. repeat split; [exact Hv|lia|exact Hsegs].
+      * intros t Ht. rewrite Hs'. unfold tp_below. rewrite Hv2 in Ht. assert ((t <? v) = true) as -> by lia.
+        destruct (Hmono t ltac:(lia)) as [H1 H2]. destruct (Hm t ltac:(lia)) as [H3 H4].
+        rewrite <- (orb_false_r (tp_inside_segs (tp_segs s1) t)).
+        apply (tp_region_mono prefer (ownP t) _ _ (tp_inside_any (tp_rr_incs rl) t) (tp_inside_any (tp_rr_excs rl) t)).
+        -- rewrite Hpurge by lia. apply Hsp. lia.
+        -- discriminate.
+        -- auto.
+        -- auto.
+      * intros t _. split; auto.
+    + split; [exact Hg1|]. split.
+      * intros t Ht. rewrite Hpurge by lia. apply Hsp. lia.
+      * intros t Ht. destruct (Hmono t ltac:(lia)) as [H1 H2]. destruct (Hm t ltac:(lia)) as [H3 H4]. split; auto.
+  - rewrite orb_true_r.
+    rewrite (tp_update_region_ma_effective true ma upd prefer (tp_rr_incs r) (tp_rr_excs r) (tp_ve_num s1) (tp_rr_now r + 86400) false s1)
+      by (intros _; lia).
+    set (e := tp_rr_now r + 86400) in *.
     set (b := tp_ve_num s1).
     destruct (tp_region_new (tp_rr_incs r) (tp_rr_excs r) b e false s1 lo') as [Hgood Hnew].
     + discriminate.
@@ -356,7 +395,7 @@ Qed.
 
 Lemma tp_roll_inv_fold n0 : forall rs prev acc,
   tp_roll_inv n0 prev acc -> tp_env_ok hz prev rs ->
-  tp_roll_inv n0 (last rs prev) (fold_left (tp_roll_step upd prefer) rs acc).
+  tp_roll_inv n0 (last rs prev) (fold_left (tp_roll_step ma upd prefer) rs acc).
 Proof.
   induction rs as [|r rest IH]; intros prev acc Hinv Henv; [exact Hinv|].
   destruct Henv as (Hok & Hmono & Hrest). cbn [fold_left].
@@ -369,33 +408,33 @@ Qed.
    period last recomputed (snd of tp_roll: the last round that was not UpdateRegion's early return) *)
 Theorem tp_rolling_updates r0 rs :
   tp_round_ok hz r0 -> tp_env_ok hz r0 rs ->
-  let s := fst (tp_roll upd prefer r0 rs) in
-  let rl := snd (tp_roll upd prefer r0 rs) in
+  let s := fst (tp_roll ma upd prefer r0 rs) in
+  let rl := snd (tp_roll ma upd prefer r0 rs) in
   forall t, Z.max (tp_rr_now r0) (tp_rr_now (last rs r0) - 3600) <= t < tp_ve_num s ->
     tp_is_inside s t =
     tp_region_spec prefer (ownP t) (tp_inside_any (tp_rr_incs rl) t) (tp_inside_any (tp_rr_excs rl) t).
 Proof.
   intros Hok Henv s rl t Ht.
   pose proof (tp_roll_inv_fold (tp_rr_now r0) rs r0 _ (tp_roll_inv_start r0 Hok) Henv) as (Hg & Hsp & _).
-  fold (tp_roll upd prefer r0 rs) in Hg, Hsp. fold s in Hg, Hsp. fold rl in Hsp.
+  fold (tp_roll ma upd prefer r0 rs) in Hg, Hsp. fold s in Hg, Hsp. fold rl in Hsp.
   rewrite (tp_rgood_is_inside _ _ s t Hg) by lia. apply Hsp. exact Ht.
 Qed.
 
-(* the view is up to date whenever the last round recomputed: valid_end had not run ahead of now + 24 h *)
+(* the view is up to date whenever the last round recomputed: valid_end had not run ahead of now + 24 h ... *)
 Theorem tp_rolling_view r0 rs r :
-  tp_roll_effective r (fst (tp_roll upd prefer r0 rs)) = true ->
-  snd (tp_roll upd prefer r0 (rs ++ [r])) = r.
+  tp_roll_effective r (fst (tp_roll ma upd prefer r0 rs)) = true ->
+  snd (tp_roll ma upd prefer r0 (rs ++ [r])) = r.
 Proof.
   intros H. unfold tp_roll. rewrite fold_left_app. cbn [fold_left]. unfold tp_roll_step at 1. cbn [snd].
-  fold (tp_roll upd prefer r0 rs). rewrite H. reflexivity.
+  fold (tp_roll ma upd prefer r0 rs). rewrite H, orb_true_r. reflexivity.
 Qed.
 
 (* the oracle check of one round (tp_roll_answers_ok over the probes, with the observed IsInside bits) accepts what
    the model computes *)
 Theorem tp_roll_oracle_accepts_model r0 rs probes :
   tp_round_ok hz r0 -> tp_env_ok hz r0 rs ->
-  let s := fst (tp_roll upd prefer r0 rs) in
-  let rl := snd (tp_roll upd prefer r0 rs) in
+  let s := fst (tp_roll ma upd prefer r0 rs) in
+  let rl := snd (tp_roll ma upd prefer r0 rs) in
   tp_roll_answers_ok prefer (Z.max (tp_rr_now r0) (tp_rr_now (last rs r0) - 3600)) (tp_ve_num s)
     (map (fun t => (t, (tp_is_inside s t, ownP t),
                     (tp_inside_any (tp_rr_incs rl) t, tp_inside_any (tp_rr_excs rl) t))) probes) = None.
@@ -435,8 +474,8 @@ Theorem tp_rolling_current_view_refuted :
   (forall e, e <= hz e) /\
   (forall b e sg, In sg (upd b e) -> snd sg <= hz e) /\
   tp_round_ok hz r0 /\ tp_env_ok hz r0 rs /\
-  snd (tp_roll upd true r0 rs) = r0 /\
-  tp_is_inside (fst (tp_roll upd true r0 rs)) 1500 = true /\
+  snd (tp_roll false upd true r0 rs) = r0 /\
+  tp_is_inside (fst (tp_roll false upd true r0 rs)) 1500 = true /\
   tp_region_spec true (ownP 1500) (tp_inside_any [] 1500) (tp_inside_any [x] 1500) = false.
 Proof.
   cbv zeta. repeat split; try (vm_compute; reflexivity); try (cbn; lia);
@@ -445,24 +484,52 @@ Proof.
   - intros b e sg [<-|[]]. cbn. lia.
 Qed.
 
+(* ... the same witness in the second form of UpdateRegion (merge in every round): the view is the last round's and 1500 is
+   outside after the first round.  What remains: between Start() and the first timer round (no round yet) the excluded
+   period, started later, is not seen - there the state is that of Start() in both forms. *)
+Theorem tp_rolling_current_view_fixed :
+  let upd := fun b e : Z => [(b, e + 50000)] in
+  let x := [(1000, 2000)] in
+  let r0 : tp_rround := (0, [], [[]]) in
+  let r1 : tp_rround := (300, [], [x]) in
+  let rs : list tp_rround := [r1; (600, [], [x]); (900, [], [x])] in
+  snd (tp_roll true upd true r0 rs) = (900, [], [x]) /\
+  tp_is_inside (fst (tp_roll true upd true r0 [r1])) 1500 = false /\
+  tp_is_inside (fst (tp_roll true upd true r0 rs)) 1500 = false /\
+  tp_is_inside (fst (tp_roll true upd true r0 rs)) 2500 = true /\
+  tp_ve_num (fst (tp_roll true upd true r0 rs)) = tp_ve_num (fst (tp_roll true upd true r0 [])) /\
+  tp_is_inside (fst (tp_roll true upd true r0 [])) 1500 = true /\
+  fst (tp_roll true upd true r0 []) = fst (tp_roll false upd true r0 []).
+Proof. vm_compute. repeat split; reflexivity. Qed.
+
 (* (2) tp_round_mono cannot be dropped: an INCLUDED period whose inside set shrinks between two rounds (it excludes a
    third period that is updated after it, so the newest stretch of its window lacks the exclusion for one round) leaves
    what it wrongly reported in the including period for good - AddSegment is never undone.  Witness: own = nothing; the
    included period shows [0, 90400) in one round and [0, 90000) + [90400, 90700) in the next; instants 90000..90399
    stay inside although neither the own definition nor the included period (as seen in that very round, and ever
-   after) contains them.  (finding include-of-excluding-period) *)
-Theorem tp_rolling_needs_monotone_refuted :
+   after) contains them.  (finding include-of-excluding-period; the same in both forms of UpdateRegion) *)
+Theorem tp_rolling_needs_monotone_refuted : forall ma : bool,
   let upd := fun _ _ : Z => @nil tp_seg in
   let hz := fun e : Z => e in
   let r0 : tp_rround := (0, [[(0, 86400)]], []) in
   let r1 : tp_rround := (4000, [[(0, 90400)]], []) in
   let r2 : tp_rround := (4300, [[(0, 90000); (90400, 90700)]], []) in
   tp_round_ok hz r0 /\ tp_round_ok hz r1 /\ tp_round_ok hz r2 /\
-  snd (tp_roll upd true r0 [r1; r2]) = r2 /\
-  tp_ve_num (fst (tp_roll upd true r0 [r1; r2])) = 90700 /\
-  tp_is_inside (fst (tp_roll upd true r0 [r1; r2])) 90200 = true /\
+  snd (tp_roll ma upd true r0 [r1; r2]) = r2 /\
+  tp_ve_num (fst (tp_roll ma upd true r0 [r1; r2])) = 90700 /\
+  tp_is_inside (fst (tp_roll ma upd true r0 [r1; r2])) 90200 = true /\
   tp_region_spec true false (tp_inside_any (tp_rr_incs r2) 90200) (tp_inside_any (tp_rr_excs r2) 90200) = false.
 Proof.
-  cbv zeta. repeat split; try (vm_compute; reflexivity);
+  intros ma. cbv zeta. repeat split; try (destruct ma; vm_compute; reflexivity);
     intros sg Hin; cbn in Hin; intuition (subst; cbn; lia).
+Qed.
+
+(* second form: the view is ALWAYS that of the last round (every round merges); with no round yet it is Start()'s *)
+Theorem tp_rolling_view_fixed upd prefer r0 rs : snd (tp_roll true upd prefer r0 rs) = last rs r0.
+Proof.
+  assert (forall rs0 (acc0 : tp_roll_acc) prev, snd acc0 = prev ->
+          snd (fold_left (tp_roll_step true upd prefer) rs0 acc0) = last rs0 prev) as H.
+  { induction rs0 as [|r rest IH]; intros acc0 prev Hp; [exact Hp|].
+    cbn [fold_left]. rewrite tp_last_cons. apply IH. reflexivity. }
+  unfold tp_roll. apply H. reflexivity.
 Qed.
